@@ -1,6 +1,6 @@
 """C10 - search streams deliver the server's items in order and obey the state machine."""
 from facts import walk, callee_of, call_args, loc
-import hirq, anchors, absx
+import sem, hirq, anchors, absx
 
 EXPLANATION = ("Q1 the transition relation of the start/next/finish shims, obtained by path-sensitive abstract execution of their typed "
                "HIR over the finite domain state in {Fresh,Active,Done,Closed,Error} x (innermost?|head of chain?) x result class "
@@ -23,8 +23,8 @@ STATE_PLACE = ('field', SELF, 'state')
 def stream_body(f, name):
     return anchors.one('SearchStream::' + name, [h for p, h in f.hir.items() if p.startswith('ldap3::search::SearchStream::<') and p.endswith('::' + name)])
 
-def run_from(f, B, state, summaries=None):
-    I = absx.Interp(f, B, summaries=summaries or [])
+def run_from(f, B, state, summaries=None, **kw):
+    I = absx.Interp(f, B, summaries=summaries or [], **kw)
     heap = {STATE_PLACE: ('ctor', 'StreamState::' + state, ())}
     root = B.root['body'] if B.root['k'] == 'Closure' else B.root
     outs = I.run(root=root, heap=heap)
@@ -182,14 +182,25 @@ def run(ctx):
     FI = hirq.Body(f, stream_body(f, 'finish_inner'))
     ctx.analysed['bodies'].add(FI.path)
     for s in STATES:
-        for o in run_from(f, FI, s):
+        seen_res = set()
+        for o in run_from(f, FI, s, combinators=True):
             if o.kind not in ('val', 'ret'):
                 continue
             ctx.add('Q1.finish_inner.closes', s, loc(FI.root), final_state(o) == 'Closed', 'finish_inner from %s ends in %s' % (s, final_state(o)))
             v = o.val
-            okv = v[0] == 'call' and v[1].endswith('::unwrap_or_else') and v[2][0][0] == 'call' and v[2][0][1].endswith('Option::<T>::take') \
-                and v[2][0][2][0] == ('field', SELF, 'res')
-            ctx.add('Q1.finish_inner.returns-stored-or-88', s, loc(FI.root), okv, 'finish_inner does not return self.res.take() with a fallback: %s' % absx.fmt(v)[:80])
+            stored = sem.taken_from  # the stored result is moved out of self.res (take / mem::take / mem::replace(.., None))
+            has = absx.pc_variant(o.st.pc, lambda x: stored(x, lambda p: p == ('field', SELF, 'res')) or x == ('field', SELF, 'res'), 'Some')
+            if has is True:
+                seen_res.add('stored')
+                okv = sem.payload_of(v, lambda x: stored(x, lambda p: p == ('field', SELF, 'res')))
+                ctx.add('Q1.finish_inner.returns-stored-or-88', s + '|stored', loc(FI.root), okv, 'with a stored final result finish_inner returns %s instead of that result' % absx.fmt(v)[:80])
+            elif has is False:
+                seen_res.add('none')
+                ctx.add('Q1.finish_inner.returns-stored-or-88', s + '|none', loc(FI.root), struct_rc(v) == 88,
+                        'without a stored final result finish_inner must return the synthetic result code 88, found %s' % absx.fmt(v)[:80])
+            else:
+                ctx.fail('Q1.finish_inner.returns-stored-or-88', s, loc(FI.root), 'finish_inner does not decide on the stored final result (self.res): %s' % absx.fmt(v)[:80])
+        ctx.add('Q1.finish_inner.returns-stored-or-88', s + '|coverage', loc(FI.root), seen_res == {'stored', 'none'}, 'finish_inner paths seen for a stored result: %s' % sorted(seen_res))
     fallback = [n for n, c in walk(FI.root) if n['k'] == 'Closure']
     rc88 = any(struct_lit_rc(f, x) == 88 for cl in fallback for x, _ in walk(cl['body']) if x['k'] == 'Struct')
     ctx.add('Q3.cancelled-is-88', FI.path, loc(FI.root), rc88, 'the synthetic result of an unfinished stream is not code 88')
